@@ -14,6 +14,7 @@ RESTRICT_FLAGS = {"REMOVE_CPULESS": 1, "ADAPT_MISC": 2, "ADAPT_IO": 4, "BYNODESE
 TYPES = S.T
 
 FIXED_SYNTHETIC = [
+    "pack:2 [numa] core:2 [numa] pu:2", "pack:2 [numa] [numa] l2:2 [numa] pu:2",
     "numa:4 core:2 pu:1", "pack:2 core:2 pu:2", "pack:2 [numa] core:4 pu:1", "numa:2 pack:2 core:2 pu:1",
     "pack:2 core:1 pu:2", "group:2 pack:2 [numa] l2:2 core:1 pu:2", "pack:3 [numa] [numa] core:2 pu:1",
     "pack:2 die:1 core:2 pu:1", "numa:6 pu:1", "pack:1 core:1 pu:1", "pack:4 [numa(memory=1024)] core:1 pu:1",
@@ -60,7 +61,9 @@ def gen_config(rng, quick=True, kind=None):
         lines.append("src synthetic " + rng.choice(FIXED_SYNTHETIC))
     else:
         lines.append("env HWLOC_LIBXML_IMPORT %d" % rng.choice([0, 1]))
-        lines.append("src xml " + rng.choice(xml_pool(quick)))
+        pool = xml_pool(quick)
+        special = [x for x in pool if os.path.basename(x) in ("16em64t-4s2c2t-offlines.xml", "16amd64-8n2c-cpusets.xml", "irregulargroups-disallowed.xml")]
+        lines.append("src xml " + (rng.choice(special) if special and rng.random() < 0.3 else rng.choice(pool)))
     return lines, kind
 
 
@@ -129,6 +132,8 @@ def gen_call(rng):
         if q < 0.08:
             fl = rng.choice([32, 64, 9, 17, 25, 1 << 20, 31])      # invalid words / combinations
         what = "ns" if bynode else "cs"
+        if bynode and rng.random() < 0.3:
+            return "restrict ~b%d %d" % (rng.randrange(0, 8), fl | 16 if rng.random() < 0.7 else fl)
         if rng.random() < 0.6:
             s = rng.choice(["~%s%s" % (what, ref(rng)), "~b%d" % rng.randrange(0, 16), "%s%s+%s%s" % (what, ref(rng), what, ref(rng)), "full"])
         else:
@@ -223,6 +228,19 @@ def gen_history(rng, maxlen):
         # asymmetric starting point: an initial restrict that removes one object's CPUs
         calls.append("restrict ~cs%s %d" % (ref(rng), rng.choice([0, 1, 2, 6])))
     calls += [gen_call(rng) for _ in range(n)]
+    if rng.random() < 0.3:
+        # insert the same Group / the same grouping matrix again later (same sets, same kind), after giving
+        # identity (userdata, subtype, infos) to objects: a surviving object must keep all of it
+        cands = [i for i, c in enumerate(calls) if c.startswith(("group ", "dist ")) and " free" not in c]
+        if cands:
+            i = rng.choice(cands)
+            again = " ".join(w for w in calls[i].split(" ") if not w.startswith(("ud=", "st=", "dm=")))
+            mid = []
+            for _ in range(rng.randint(1, 4)):
+                r = "#%d" % rng.randrange(0, 12)
+                mid.append(rng.choice(["ud %s" % r, "subtype %s s" % r, "info_add %s a b" % r]))
+            j = rng.randint(i + 1, len(calls))
+            calls[j:j] = mid + [again]
     if rng.random() < 0.5:
         calls.append("touch")
     return calls
@@ -266,6 +284,31 @@ DIRECTED += [
      ["restrict b0 1"]),
     ("merge-child-into-parent-memory", ["filter 6 2", "flags 0", "src synthetic pack:2 [numa] l2:2 [numa] core:2 pu:1"],
      ["restrict b0+b1 1"]),
+    # a second mergeable Group with the same sets and the SAME kind must leave the first one alone (gp_index,
+    # userdata, subtype, infos), for user Groups and for Groups created by distances grouping
+    ("same-kind-group-twice-keeps-identity", ["flags 0", "src synthetic pack:2 core:4 pu:1"],
+     ["group cs=b0+b1 ud=1 st=first", "info_add #2 a b", "group cs=b0+b1", "group cs=b0+b1 kind=0 st=second ud=1"]),
+    ("same-kind-group-twice-kind5", ["flags 0", "src synthetic pack:2 core:4 pu:1"],
+     ["group cs=b2+b3 kind=5 ud=1", "subtype #5 s", "group cs=b2+b3 kind=5", "group cs=b2+b3 kind=7"]),
+    ("distances-grouping-twice-keeps-identity", ["flags 0", "src synthetic numa:4 core:2 pu:1"],
+     ["dist name=lat kind=6 flags=1 objs=type:14 vals=blk:2:10:20:40", "ud #1", "subtype #1 s", "info_add #1 a b",
+      "dist name=lat2 kind=6 flags=1 objs=type:14 vals=blk:2:10:20:40"]),
+    # BYNODESET|REMOVE_MEMLESS where PUs have two local NUMA nodes (attached at two levels) and lose only one
+    ("restrict-bynodeset-memless-two-local-nodes", ["flags 0", "src synthetic pack:2 [numa] core:2 [numa] pu:2"],
+     ["restrict ~b0 24", "restrict ~b3 24", "restrict ~b5 26"]),
+    ("restrict-bynodeset-memless-hbm-like", ["flags 1", "src synthetic pack:2 [numa] [numa] core:2 pu:2"],
+     ["restrict ~b1 24", "restrict ~b2 30"]),
+    # restrict by cpuset on topologies with offline / disallowed PUs (complete_cpuset larger than cpuset), keeping all
+    # the allowed PUs of some objects while dropping others
+    ("restrict-with-offline-pus", ["flags 0", "src xml " + os.path.join(C.REPO, "tests/hwloc/xml/16em64t-4s2c2t-offlines.xml")],
+     ["restrict cs#1+cs#9 0", "restrict cs#1 0"]),
+    ("restrict-with-offline-pus-2", ["flags 0", "src xml " + os.path.join(C.REPO, "tests/hwloc/xml/16em64t-4s2c2t-offlines.xml")],
+     ["restrict cs#4+cs#12 2"]),
+    ("restrict-with-disallowed-pus", ["flags 0", "src xml " + os.path.join(C.REPO, "tests/hwloc/xml/16amd64-8n2c-cpusets.xml")],
+     ["restrict cs#1+cs#9 0", "restrict cs#2 1"]),
+    # put-back path: the refused Group contains a child, is disjoint from the next one and straddles a later one
+    ("group-conflict-putback-after-gap", ["flags 0", "src synthetic pack:4 core:2 pu:2"],
+     ["group cs=b0+b1+b2+b3+b8+b9", "group cs=b4+b5+b6+b7+b12 dm=1", "group cs=b0+b1+b2+b3+b8+b9+b12+b13+b14+b15"]),
     ("dontmerge-mixed-group-level", ["flags 0", "src synthetic pack:1 core:4 pu:1"],
      ["group cs=b0+b1", "group cs=b2+b3 dm=1", "restrict b0+b2 0"]),
     ("dontmerge-mixed-group-level-reversed", ["flags 0", "src synthetic pack:1 core:6 pu:1"],
